@@ -57,12 +57,16 @@ class WsExec:
         self.sess.on_tx = lambda k, c: self.rec("tx", k=k, code=c)
         self.sess.on_tclose = lambda: self.rec("tclose")
         self.tx_close_seen = False
+        self.finished = False
+        self.script: List[list] = []           # driver actions, enough to re-execute this run (replay)
 
     # ---- recording
     def now(self) -> int:
         return int(round(self.loop.time()))
 
     def rec(self, ev: str, **kw: Any) -> None:
+        if self.finished:
+            return
         e = dict(FIELDS)
         e.update(kw)
         e["ev"] = ev
@@ -149,6 +153,7 @@ class WsExec:
         self._ret(t, "send", "OK")
 
     def spawn(self, t: str) -> None:
+        self.script.append(["spawn", t])
         if t.startswith("R"):
             rt = self.opts["recv_timeout"]
             coro = self._receiver(t, self.opts["nrecv"], float(rt) if rt else None)
@@ -161,6 +166,7 @@ class WsExec:
         self.names[task] = t
 
     def cancel(self, t: str) -> None:
+        self.script.append(["cancel", t])
         task = self.tasks.get(t)
         if task is not None and not task.done():
             self.rec("cancel", t=t)
@@ -177,20 +183,36 @@ class WsExec:
             self.sess.eof()
 
     def peer(self, kind: str, code: int = PEER_CODE) -> None:
+        self.script.append(["peer", kind, code])
         self.bl.io(self._io_deliver, kind, code if kind == "close" else 0)
 
+    def peer_eof(self) -> None:
+        self.script.append(["eof"])
+        self.bl.io(self._io_eof)
+
+    def settle(self) -> None:
+        self.script.append(["settle"])
+        self.bl.settle()
+
     def drop(self) -> None:
+        self.script.append(["drop"])
         if not self.tr.closing:
             self.rec("drop")
             self.sess.drop()
 
     def tick(self) -> List[str]:
+        self.script.append(["tick"])
         labs = self.bl.tick(1.0)
         self.rec("tick")
         return labs
 
     def step(self) -> Optional[str]:
+        self.script.append(["step"])
         return self.bl.step()
+
+    def run_script(self, script: List[list]) -> None:
+        for a in script:
+            getattr(self, {"eof": "peer_eof"}.get(a[0], a[0]))(*a[1:])
 
     # ---- end of the execution
     def finish(self) -> dict:
@@ -211,8 +233,9 @@ class WsExec:
         ctxs = [c for c in self.loop.exc_contexts if not str(c.get("message", "")).startswith(gc_family)]
         self.rec("quiesce", info=type(exc).__name__ if exc is not None else "", n=len(ctxs))
         self.exc_messages = [str(c.get("message")) + ":" + repr(c.get("exception")) for c in ctxs]
+        self.finished = True
         return {"cfg": {"side": self.side, "closeTimeout": o["close_timeout"]}, "src": "", "events": self.events,
-                "opts": dict(o), "excs": self.exc_messages[:3]}
+                "opts": dict(o), "excs": self.exc_messages[:3], "script": list(self.script)}
 
     def teardown(self) -> None:
         for task in self.tasks.values():
@@ -415,7 +438,7 @@ def random_exec(ctx: Ctx, loop: Any, rng: Any) -> dict:
             x.drop()
             dropped = True
         elif a == "eof":
-            x.bl.io(x._io_eof)
+            x.peer_eof()
             dropped = True
         elif a == "tick":
             x.tick()
@@ -427,11 +450,11 @@ def random_exec(ctx: Ctx, loop: Any, rng: Any) -> dict:
     # a chatty peer goes on for a while after the schedule proper (one frame per virtual second)
     if chatty and not peer_closed and not dropped:
         for _ in range(rng.randint(0, 2 * ct + 1)):
-            x.bl.settle()
+            x.settle()
             if x.tr.closing:
                 break
             x.peer("data")
-            x.bl.settle()
+            x.settle()
             x.tick()
     tr = x.finish()
     tr["src"] = "random"
@@ -520,7 +543,7 @@ def judge(ctx: Ctx, traces: List[dict], label: str) -> None:
             side = t["cfg"]["side"]
             ctx.violation(v.clause, f"{side}: {v.clause} after " + trace_signature(t, v.pos),
                           {"trace": {"cfg": t["cfg"], "src": t["src"], "events": t["events"], "opts": t.get("opts"),
-                                     "excs": t.get("excs")},
+                                     "excs": t.get("excs"), "script": t.get("script")},
                            "failed_at": v.pos, "label": label}, "trace")
     t0 = traces[0]
     ctx.sample({"src": t0["src"], "side": t0["cfg"]["side"],
@@ -714,11 +737,24 @@ def replay(ctx: Ctx, path: str) -> int:
         print("replay: model counterexample:", " ".join(payload["detail"].get("model_trace", [])))
         print("re-run the check to reproduce it with TLC")
         return 0
+    show = ("ev", "t", "k", "code", "now", "closed", "cc", "tcl", "info")
+    if t.get("script") and t.get("opts"):
+        # re-execute the recorded driver actions against the real code, then let TLC judge the new record
+        loop = steploop.new_loop()
+        enable_eager(loop)
+        x = WsExec(loop, t["cfg"]["side"], **t["opts"])
+        x.run_script(t["script"])
+        new = x.finish()
+        x.teardown()
+        same = [{k: e[k] for k in show} for e in new["events"]] == [{k: e[k] for k in show} for e in t["events"]]
+        print(f"replay: re-executed {len(t['script'])} driver actions on the real {t['cfg']['side']} class; "
+              f"record identical to the stored one: {same}")
+        t = {"cfg": new["cfg"], "src": "replay", "events": new["events"], "opts": t["opts"]}
     vs, _ = validate_batch("WsSessionTrace", "WsSessionTrace.cfg", [{"cfg": t["cfg"], "src": t["src"], "events": t["events"]}])
     v = vs[0]
-    print(f"replay (recorded events re-validated): ok={v.ok} clause={v.clause!r} pos={v.pos}/{v.total} cfg={t['cfg']} opts={t.get('opts')}")
+    print(f"verdict: ok={v.ok} clause={v.clause!r} pos={v.pos}/{v.total} cfg={t['cfg']} opts={t.get('opts')}")
     for e in t["events"][:v.pos + 1]:
-        print("  ", {k: e[k] for k in ("ev", "t", "k", "code", "now", "closed", "cc", "tcl", "info") if e[k] not in ("", 0, False) or k == "ev"})
+        print("  ", {k: e[k] for k in show if e[k] not in ("", 0, False) or k == "ev"})
     if not v.ok:
         print(f"VIOLATION property=C13 replay={path}")
         return 1
